@@ -9,6 +9,10 @@ coq/Slots.v, Erase.v, Alias.v, Throw.v, EmplaceGrow.v and ThrowMove.v model the 
     `*_mt` do the same on vf::El<2>, whose moves are throwing-capable events too (coq/ThrowMove.v: every catch branch is live);
   * the same cases are evaluated INSIDE Coq (`Eval vm_compute`) by the model definitions, from an initial memory that
     is a function of the case parameters;
+  * the families `*_tr` (coq/SlotsTR.v) run the trivially relocatable overloads (bitwise relocation: std::memmove) on vf::El<1>; the
+    driver records every memmove of the amc headers as a ledger event (the vacated source slots become `R`); a relocated object is
+    printed with a trailing `!` (it does not live where it was constructed): the marker is checked here against the values (an object
+    carries it iff it sits in another slot than the one it was built in) and removed before the comparison with the model;
   * both sides are rendered to the same text (`post=R,L10,M,... | threw= | newsize= | errs=`) and compared line by line.
 
 `run(tier) -> dict`;  `python3 -m lib.slotcorr [quick|thorough]` prints a summary and exits 1 on any difference.
@@ -25,7 +29,8 @@ from . import common as C
 from . import coqbuild
 
 WORK = os.path.join(C.CACHE, "slotcorr")
-VOS = ["Slots.vo", "Erase.vo", "Alias.vo", "Throw.vo", "EmplaceGrow.vo", "ThrowMove.vo"]
+VOS = ["Slots.vo", "Erase.vo", "Alias.vo", "Throw.vo", "EmplaceGrow.vo", "ThrowMove.vo", "SlotsTR.vo"]
+RANGE_VALUE = 100       # slotdrv.cpp: kRangeValue (insert_range_tr: the source range holds 100, 101, ...)
 NEW_VALUE = 99          # slotdrv.cpp: kNewValue
 FIRST_VALUE = 10        # slotdrv.cpp: kFirstValue
 MAX_REPORTED = 8
@@ -105,13 +110,42 @@ CASES = {
     "erase_mt": (("size", "cap", "first", "last"), True, "KEraseM", "ThrowMove.erase_n",
                  ["ThrowMove.move_forward", "ThrowMove.move_assign", "ThrowMove.lift", "EmplaceGrow.mv_assign", "Throw.destroy_n",
                   "Throw.destroy", "Throw.tick"]),
+    # coq/SlotsTR.v: the trivially relocatable overloads (bitwise relocation) on vf::El<1>
+    "shift_right1_tr": (("size", "cap", "pos"), True, "KShiftRight1TR", "SlotsTR.shift_right1",
+                        ["SlotsTR.relocate_n", "SlotsTR.reloc_bwd", "SlotsTR.relocate", "ThrowMove.lift"]),
+    "shift_right_cnt_tr": (("size", "cap", "pos", "count"), True, "KShiftRightCntTR", "SlotsTR.shift_right_cnt",
+                           ["SlotsTR.relocate_n", "SlotsTR.reloc_bwd", "SlotsTR.relocate", "ThrowMove.lift"]),
+    "unshift_right_tr": (("size", "cap", "pos", "count"), True, "KUnshiftRightTR", "SlotsTR.unshift_right",
+                         ["SlotsTR.relocate_n", "SlotsTR.reloc_fwd", "SlotsTR.relocate", "ThrowMove.lift"]),
+    "shift_left_tr": (("size", "cap", "pos"), True, "KShiftLeftTR", "SlotsTR.shift_left",
+                      ["SlotsTR.relocate_n", "SlotsTR.reloc_fwd", "SlotsTR.relocate", "ThrowMove.lift"]),
+    "insert_n_tr": (("size", "cap", "pos"), True, "KInsertNTR", "SlotsTR.insert_n",
+                    ["SlotsTR.shift_right1", "SlotsTR.shift_left", "SlotsTR.relocate_n", "SlotsTR.reloc_fwd", "SlotsTR.reloc_bwd",
+                     "SlotsTR.relocate", "Throw.copy_construct", "Throw.tick"]),
+    "emplace_n_tr": (("size", "cap", "pos", "src", "rv"), True, "KEmplaceNTR", "SlotsTR.emplace_n",
+                     ["SlotsTR.shift_relocate", "SlotsTR.shift_right1", "SlotsTR.relocate_after_shift", "SlotsTR.relocate_n",
+                      "SlotsTR.reloc_bwd", "SlotsTR.relocate", "EmplaceGrow.construct_arg", "EmplaceGrow.mv_construct",
+                      "Throw.copy_construct", "Throw.tick", "ThrowMove.lift"]),
+    "erase_tr": (("size", "cap", "first", "last"), True, "KEraseTR", "SlotsTR.erase_n",
+                 ["SlotsTR.relocate_n", "SlotsTR.reloc_fwd", "SlotsTR.relocate", "Throw.destroy_n", "Throw.destroy", "ThrowMove.lift"]),
+    "insert_cnt_tr": (("size", "cap", "pos", "count"), True, "KInsertCntTR", "SlotsTR.insert_cnt_tr",
+                      ["SlotsTR.shift_right_cnt", "SlotsTR.fill_after_shift", "SlotsTR.unshift_right", "SlotsTR.relocate_n",
+                       "SlotsTR.reloc_fwd", "SlotsTR.reloc_bwd", "SlotsTR.relocate", "Throw.uninit_fill_n", "Throw.uninit_fill_loop",
+                       "Throw.copy_construct", "Throw.destroy_n", "Throw.destroy", "Throw.tick"]),
+    "insert_range_tr": (("size", "cap", "pos", "count"), True, "KInsertRangeTR", "SlotsTR.insert_range_tr",
+                        ["SlotsTR.shift_right_cnt", "SlotsTR.copy_after_shift", "SlotsTR.unshift_right", "SlotsTR.uninit_copy_n",
+                         "SlotsTR.uninit_copy_loop", "SlotsTR.relocate_n", "SlotsTR.reloc_fwd", "SlotsTR.reloc_bwd", "SlotsTR.relocate",
+                         "Throw.copy_construct", "Throw.destroy_n", "Throw.destroy", "Throw.tick"]),
 }
 # the model computes the size the member function sets
-HAS_NEWSIZE = ("insert_cnt", "resize_grow", "emplace_n_th", "emplace_grow_th", "emplace_back_grow_th", "emplace_n_mt")
+HAS_NEWSIZE = ("insert_cnt", "resize_grow", "emplace_n_th", "emplace_grow_th", "emplace_back_grow_th", "emplace_n_mt", "emplace_n_tr")
 # families whose state is made of segments `a/b/...` (slotdrv.cpp, SLOTDRV.md): block/argument/e  or  old block/argument/e/new block
-COMPOSITE = {"emplace_n_th": 3, "emplace_grow_th": 4, "emplace_back_grow_th": 4, "emplace_n_mt": 3}
+COMPOSITE = {"emplace_n_th": 3, "emplace_grow_th": 4, "emplace_back_grow_th": 4, "emplace_n_mt": 3, "emplace_n_tr": 3}
 # composite families whose block segment is `cap` slots long (the others: `size`)
-BLOCK_IS_CAP = ("emplace_n_th", "emplace_n_mt")
+BLOCK_IS_CAP = ("emplace_n_th", "emplace_n_mt", "emplace_n_tr")
+# families on the trivially relocatable element vf::El<1>: objects are moved bitwise, the marker `!` is legal there (see relocation_marks)
+TR_FAMILIES = ("shift_right1_tr", "shift_right_cnt_tr", "unshift_right_tr", "shift_left_tr", "insert_n_tr", "emplace_n_tr", "erase_tr",
+               "insert_cnt_tr", "insert_range_tr")
 
 LINE = re.compile(r"^CASE (\S+) ((?:\w+=\d+ )+)k=(-|\d+) \| pre=(\S+) \| post=(\S+) \| threw=([01]) \| newsize=(-|\d+) \| "
                   r"errs=(\d+) live=(-?\d+)(?: msg=(.*))?$")
@@ -120,7 +154,7 @@ HEAD = re.compile(r"^CASE (\S+) ((?:\w+=\d+ )+)k=(-|\d+) \|")
 COQ_PRELUDE = r"""(* generated by lib/slotcorr.py: evaluates the slot models on the cases the C++ driver ran *)
 From Coq Require Import ZArith List Arith Bool.
 From Amc Require Import Slots Erase Alias Throw EmplaceGrow.
-From Amc Require ThrowMove.
+From Amc Require ThrowMove SlotsTR.
 Import ListNotations.
 Set Printing Depth 1000000.
 Set Printing Width 200.
@@ -176,6 +210,13 @@ Definition shifted1T (size cap pos : nat) : Throw.mem :=
   fun i => if i <? pos then Throw.Live (Z.of_nat (10 + i)) else if i =? pos then Throw.Moved
            else if i <=? size then Throw.Live (Z.of_nat (10 + (i - 1))) else if i <? cap then Throw.Raw else Throw.Out.
 Definition kind (rv : nat) : EmplaceGrow.argkind := match rv with 0 => EmplaceGrow.Lvalue | _ => EmplaceGrow.Rvalue end.
+(* what the trivially relocatable shift_right (pos, size - pos, count) leaves behind, written down directly: EVERY slot of
+   [pos, pos + count) is raw *)
+Definition shiftedTR (size cap pos count : nat) : Throw.mem :=
+  fun i => if i <? pos then Throw.Live (Z.of_nat (10 + i)) else if i <? pos + count then Throw.Raw
+           else if i <? size + count then Throw.Live (Z.of_nat (10 + (i - count))) else if i <? cap then Throw.Raw else Throw.Out.
+(* the source range of insert_range_tr: count external elements 100, 101, ... *)
+Definition rangeTR (count : nat) : list Z := map (fun i => Z.of_nat (100 + i)) (seq 0 count).
 
 Inductive case :=
 | KInsertCnt (size cap pos count : nat)
@@ -198,7 +239,16 @@ Inductive case :=
 | KShiftLeftM (size cap pos : nat) (th : option nat)
 | KInsertNM (size cap pos : nat) (th : option nat)
 | KEmplaceNM (size cap pos src rv : nat) (th : option nat)
-| KEraseM (size cap first last : nat) (th : option nat).
+| KEraseM (size cap first last : nat) (th : option nat)
+| KShiftRight1TR (size cap pos : nat) (th : option nat)
+| KShiftRightCntTR (size cap pos count : nat) (th : option nat)
+| KUnshiftRightTR (size cap pos count : nat) (th : option nat)
+| KShiftLeftTR (size cap pos : nat) (th : option nat)
+| KInsertNTR (size cap pos : nat) (th : option nat)
+| KEmplaceNTR (size cap pos src rv : nat) (th : option nat)
+| KEraseTR (size cap first last : nat) (th : option nat)
+| KInsertCntTR (size cap pos count : nat) (th : option nat)
+| KInsertRangeTR (size cap pos count : nat) (th : option nat).
 
 Definition run (c : case) : list Z :=
   match c with
@@ -255,6 +305,26 @@ Definition run (c : case) : list Z :=
       (* erase(first, last) calls erase_n only for a non empty range *)
       let n := last - first in
       showT cap (if n =? 0 then Throw.Done (initT size cap) th else ThrowMove.erase_n (initT size cap) th first n (size - last)) NOSIZE NOSIZE
+  (* coq/SlotsTR.v: the trivially relocatable overloads; the shifts and erase_n have no throwing-capable event: the oracle is handed back *)
+  | KShiftRight1TR size cap pos th => showT cap (ThrowMove.lift (SlotsTR.shift_right1 (initT size cap) pos (size - pos)) th) NOSIZE NOSIZE
+  | KShiftRightCntTR size cap pos count th =>
+      showT cap (ThrowMove.lift (SlotsTR.shift_right_cnt (initT size cap) pos (size - pos) count) th) NOSIZE NOSIZE
+  | KUnshiftRightTR size cap pos count th =>
+      showT cap (ThrowMove.lift (SlotsTR.unshift_right (shiftedTR size cap pos count) pos (size - pos) count) th) NOSIZE NOSIZE
+  | KShiftLeftTR size cap pos th =>
+      showT cap (ThrowMove.lift (SlotsTR.shift_left (shiftedTR size cap pos 1) (pos + 1) (size - pos)) th) NOSIZE NOSIZE
+  | KInsertNTR size cap pos th => showT cap (SlotsTR.insert_n (initT size cap) th pos (size - pos) v) NOSIZE NOSIZE
+  | KEmplaceNTR size cap pos src rv th =>
+      showE (seq 0 cap ++ [src; cap + 1])
+            (SlotsTR.emplace_n (EmplaceGrow.init_lay size cap v) th pos (size - pos) (cap + 1) src (kind rv))
+            (Z.of_nat (size + 1)) (Z.of_nat size)
+  | KEraseTR size cap first last th =>
+      (* erase(first, last) calls erase_n only for a non empty range *)
+      let n := last - first in
+      showT cap (if n =? 0 then Throw.Done (initT size cap) th
+                 else ThrowMove.lift (SlotsTR.erase_n (initT size cap) first n (size - last)) th) NOSIZE NOSIZE
+  | KInsertCntTR size cap pos count th => showT cap (SlotsTR.insert_cnt_tr (initT size cap) th size pos count v) NOSIZE NOSIZE
+  | KInsertRangeTR size cap pos count th => showT cap (SlotsTR.insert_range_tr (initT size cap) th size pos (rangeTR count)) NOSIZE NOSIZE
   end.
 """
 ERR_NAMES = {1: "ConstructOverLive", 2: "ReadDead", 3: "AssignDead", 4: "DestroyDead", 5: "OutOfBlock"}
@@ -284,6 +354,52 @@ def segments(text):
 
 def is_alive(tok):
     return tok.startswith("L") or tok.rstrip("!") == "M"
+
+
+def unmarked(text_or_tokens):
+    """the state without the relocation marker `!`"""
+    if isinstance(text_or_tokens, str):
+        return text_or_tokens.replace("!", "")
+    return [t.rstrip("!") for t in text_or_tokens]
+
+
+def relocation_marks(c, tokens_text, completed):
+    """The marker `!` (an object whose bytes were copied without a constructor: `self != this`) in a state of a `*_tr` family.
+    Values tell where an object was constructed: 10 + i in slot i of the block; 99 / 100 + i (the inserted copies) in the slot they
+    are in; the new element of emplace_n in the temporary `e` when elements had to be shifted (n > 0), in place otherwise; the
+    moved-from own element of an rvalue emplace in slot `src`.  An object must carry `!` iff it is not where it was constructed.
+    -> list of problems"""
+    p = c.params
+    size = p["size"]
+    out = []
+    if c.name in COMPOSITE:
+        segs = segments(tokens_text)
+        block, arg = segs[0], segs[1]
+        own = p["src"] < size
+        if own and (len(arg) != 1 or arg[0] != block[p["src"]]):
+            out.append("argument segment %s is not slot %d of the block" % (arg, p["src"]))
+        if not own and any(t.endswith("!") for t in arg):
+            out.append("the external argument is marked as relocated")
+        if any(t.endswith("!") for t in segs[2]):
+            out.append("marker in the temporary segment")
+    else:
+        block = tokens_text
+    for j, t in enumerate(block):
+        if not is_alive(t):
+            if t.endswith("!"):
+                out.append("slot %d: marker on a raw slot" % j)
+            continue
+        body = t.rstrip("!")
+        if c.name in COMPOSITE and completed and j == p["pos"]:
+            want = size - p["pos"] > 0           # the new element: built in `e` and relocated, or built in place at the end
+        elif body == "M":
+            want = c.name in COMPOSITE and j != p["src"]
+        else:
+            val = int(body[1:])
+            want = FIRST_VALUE <= val < FIRST_VALUE + size and j != val - FIRST_VALUE
+        if want != t.endswith("!"):
+            out.append("slot %d holds %s: %s" % (j, t, "a relocated object without the marker" if want else "marked as relocated, but it is where it was built"))
+    return out
 
 
 def parse_driver(out):
@@ -362,9 +478,21 @@ def expected_bases(max_size, max_extra):
                 if n > 0:
                     for count in range(1, extra + 1):
                         out.add(("shift_right_cnt_mt", size, cap, pos, count))
+                        out.add(("shift_right_cnt_tr", size, cap, pos, count))
+                        out.add(("unshift_right_tr", size, cap, pos, count))
                     if extra >= 1:
                         out.add(("shift_right1_mt", size, cap, pos))
                         out.add(("shift_left_mt", size, cap, pos))
+                        out.add(("shift_right1_tr", size, cap, pos))
+                        out.add(("shift_left_tr", size, cap, pos))
+                for count in range(extra + 1):
+                    out.add(("insert_cnt_tr", size, cap, pos, count))
+                    out.add(("insert_range_tr", size, cap, pos, count))
+                if extra >= 1:
+                    out.add(("insert_n_tr", size, cap, pos))
+                    for src in list(range(size)) + [cap + 2]:
+                        for rv in (0, 1):
+                            out.add(("emplace_n_tr", size, cap, pos, src, rv))
             if extra == 0:
                 for src in list(range(size)) + [size + 2]:
                     for rv in (0, 1):
@@ -375,6 +503,7 @@ def expected_bases(max_size, max_extra):
                 for last in range(first, size + 1):
                     out.add(("erase", size, cap, first, last))
                     out.add(("erase_mt", size, cap, first, last))
+                    out.add(("erase_tr", size, cap, first, last))
             for count in range(size, cap + 1):
                 out.add(("resize_grow", size, cap, count))
             for count in range(cap + 1):
@@ -396,6 +525,12 @@ def expected_pre(c):
         pos = p["pos"]
         return ["L%d" % (FIRST_VALUE + i) if i < pos else "M" if i == pos else "L%d" % (FIRST_VALUE + i - 1) if i <= size else "R"
                 for i in range(cap)]
+    if c.name in ("unshift_right_tr", "shift_left_tr"):
+        # what the trivially relocatable shift_right(pos, size - pos, count) leaves: [pos, pos + count) raw, the tail count slots
+        # further; every element of the tail has been relocated: marker `!`
+        pos, count = p["pos"], p.get("count", 1)
+        return ["L%d" % (FIRST_VALUE + i) if i < pos else "R" if i < pos + count else "L%d!" % (FIRST_VALUE + i - count) if i < size + count
+                else "R" for i in range(cap)]
     if c.name != "fill_after_shift":
         return prefix
     pos, count = p["pos"], p["count"]
@@ -428,7 +563,12 @@ def harness_checks(cases, max_size, max_extra):
             anomalies.append("%s: %d lifetime errors recorded by the ledger (%s)" % (c.title(), c.errs, c.msg))
         elif c.msg:
             problems.append("%s: %s" % (c.title(), c.msg))
-        if any(s.endswith("!") for s in c.post):
+        if c.name in TR_FAMILIES:
+            for when, text, completed in (("before", c.pre_text if c.name in COMPOSITE else c.pre, False),
+                                          ("after", c.post_text if c.name in COMPOSITE else c.post, not c.threw)):
+                for q in relocation_marks(c, text, completed):
+                    anomalies.append("%s: relocation marker %s the call: %s" % (c.title(), when, q))
+        elif any(s.endswith("!") for s in c.post):
             anomalies.append("%s: a non relocatable object was moved bitwise: %s" % (c.title(), ",".join(c.post)))
         if c.name in COMPOSITE:
             # X<n> in the e segment: n live objects outside the block(s) and the external object (a leaked temporary);
@@ -530,8 +670,10 @@ def model_line(c, zs):
 
 
 def impl_line(c):
-    return canonical(c.title(), c.post_text if c.name in COMPOSITE else c.post, c.threw, c.newsize if c.name in HAS_NEWSIZE else "-",
-                     str(c.errs))
+    post = c.post_text if c.name in COMPOSITE else c.post
+    if c.name in TR_FAMILIES:       # the marker of a relocated object is checked on its own (relocation_marks), the models do not carry it
+        post = unmarked(post)
+    return canonical(c.title(), post, c.threw, c.newsize if c.name in HAS_NEWSIZE else "-", str(c.errs))
 
 
 # ------------------------------------------------------------------------------------------------------------------
@@ -543,7 +685,9 @@ def run(tier="quick"):
            "space": "size 0..%d, capacity size + 0..%d, every position, count 0..%d, every first <= last, every source index, "
                     "every throw index; emplace_n / growing emplace / emplace_back: argument = external object or every own element, as an "
                     "lvalue and as an rvalue; element type El<0> (not trivially relocatable, noexcept moves); families *_mt: shift_right (both "
-                    "overloads), shift_left, insert_n, emplace_n, erase_n on El<2> (moves are throwing-capable events), every throw index"
+                    "overloads), shift_left, insert_n, emplace_n, erase_n on El<2> (moves are throwing-capable events), every throw index; "
+                    "families *_tr: the trivially relocatable overloads of shift_right (both), unshift_right, shift_left, insert_n, emplace_n, "
+                    "erase_n and the bodies of insert(pos, count, v) / insert(pos, first, last) on El<1> (bitwise relocation), every throw index"
                     % (max_size, max_extra, max_extra)}
 
     def done():
